@@ -115,7 +115,9 @@ type entry struct {
 	// stateful handler hammer (c09_stateful_test.go)
 	comp      string                  // component reported in violations (default: name)
 	gateFloor func(thorough bool) int // floor for the gate_passed/<name> counter
-	totalFn   func(thorough bool) int // inputs over all states, computed in the parent only (replaces quick/thorough)
+	// exhausted-state hammer (c09_exhausted_test.go)
+	floors  func(thorough bool) map[string]int // floors for counters that prove the state-specific code was reached
+	totalFn func(thorough bool) int            // inputs over all states, computed in the parent only (replaces quick/thorough)
 }
 
 func (e *entry) total(thorough bool) int {
@@ -133,6 +135,7 @@ type env struct {
 	seed    int64
 	j       *journal
 	cur     int
+	to      int // end of the generated stream of this child (0: explicit inputs)
 	res     *result
 	notesMu sync.Mutex
 }
@@ -294,11 +297,22 @@ func childMain() {
 	// hang watchdog: a candidate only (confirmed by reproduction in a fresh process)
 	var inflight atomic.Int64 // index currently being processed
 	var since atomic.Int64    // unix nanos when it started
+	var prepping atomic.Int64 // unix nanos when the generation of the next input started (0: not generating)
 	inflight.Store(-1)
 	var resMu sync.Mutex
 	go func() {
 		for {
 			time.Sleep(250 * time.Millisecond)
+			// generating an input may include well-formed set-up exchanges (a batch of servers brought
+			// into an exhausted state): a set-up that does not come back is not attributed to any
+			// input (the parent reports the dead child as inconclusive and resumes behind it)
+			if p := prepping.Load(); p != 0 && time.Since(time.Unix(0, p)) > 120*time.Second {
+				fmt.Fprintln(os.Stderr, "C09-PREP-STALL: the set-up in front of the next input did not finish within 120 s")
+				buf := make([]byte, 1<<20)
+				n := runtime.Stack(buf, true)
+				os.Stderr.Write(buf[:n])
+				os.Exit(9)
+			}
 			i := inflight.Load()
 			if i >= 0 && time.Since(time.Unix(0, since.Load())) > time.Duration(sp.Watchdog)*time.Second {
 				resMu.Lock()
@@ -321,6 +335,9 @@ func childMain() {
 		os.Exit(0)
 	}
 	ev := &env{seed: sp.Seed, j: j, res: res, cur: -1}
+	if len(sp.Inputs) == 0 {
+		ev.to = sp.To
+	}
 	r, err := e.open(sp.State, ev)
 	if err != nil {
 		res.SetupErr = err.Error()
@@ -363,7 +380,10 @@ func childMain() {
 		if explicit != nil {
 			in = explicit[i]
 		} else {
+			ev.cur = i
+			prepping.Store(time.Now().UnixNano())
 			in = r.Next(i, rngFor(sp.Seed, e.name, sp.State, i))
+			prepping.Store(0)
 		}
 		if len(in) > maxInput {
 			in = in[:maxInput]
